@@ -277,6 +277,11 @@ def run_coq_cases(pid, header, check_fun, literals, shard_bytes=350_000, timeout
     for k, sh in enumerate(shards):
         rc, so, se = outs[k]
         m = re.search(r'=\s*"([01;]*)"', so.replace("\n", ""))
+        if rc == 124:
+            # the evaluation ran out of time: a limit of this machinery (the model does not depend on the implementation),
+            # reported as cases not compared, never as a disagreement
+            log.append(f"TIMEOUT shard {k}: {len(sh)} case(s) not compared")
+            continue
         if rc != 0 or not m:
             log.append(f"shard {k}: rc={rc} {se[-2000:]} {so[-500:]}")
             continue
